@@ -312,6 +312,8 @@ fn png_chunk(out: &mut Vec<u8>, ty: &[u8; 4], data: &[u8]) {
 }
 
 pub struct PngOpts {
+    /// a non-IDAT chunk (tEXt) inserted after this many IDAT chunks (breaks the run: edge case)
+    pub foreign_after: Option<usize>,
     pub signature: bool,
     pub ihdr: bool,
     /// chunk payload sizes; the last chunk takes the remainder
@@ -369,6 +371,7 @@ pub fn gen_png_opts(dna: &mut Dna, payload_len: usize, edge_cases: bool) -> PngO
         vec![]
     };
     PngOpts {
+        foreign_after: if edge_cases && dna.chance(5) { Some(dna.below(nchunks.max(1))) } else { None },
         signature: dna.chance(85),
         ihdr: dna.chance(85),
         cuts,
@@ -393,10 +396,13 @@ pub fn wrap_png(out: &mut Vec<u8>, o: &PngOpts, stream: &[u8], plain: &[u8]) -> 
     payload.extend_from_slice(&adler32(plain).to_be_bytes());
     let start = out.len();
     let mut pos = 0;
-    for &c in &o.cuts {
+    for (ci, &c) in o.cuts.iter().enumerate() {
         let c = c.min(payload.len() - pos);
         png_chunk(out, b"IDAT", &payload[pos..pos + c]);
         pos += c;
+        if o.foreign_after == Some(ci) {
+            png_chunk(out, b"tEXt", b"Comment\0between IDAT chunks");
+        }
     }
     png_chunk(out, b"IDAT", &payload[pos..]);
     let total = out.len() - start;
@@ -567,6 +573,7 @@ pub fn gen_file_opts(dna: &mut Dna, small: bool) -> FileCase {
                 let plain: Vec<u8> = (0..n).map(|_| m.u8()).collect();
                 let stream = crate::gen_comp::zlib_deflate_raw(&plain, &crate::gen_comp::ZCfg::simple(0)).unwrap();
                 let o = PngOpts {
+                    foreign_after: None,
                     signature: true,
                     ihdr: true,
                     cuts: vec![1; stream.len() + 5],
